@@ -105,6 +105,12 @@ class Out:
         return {'kind': 'contract', 'label': label, 'fn': c.fn}
 
 
+def _prev_sig(toks, k):
+    while k >= 0 and toks[k].kind in ('ws', 'comment', 'doc'):
+        k -= 1
+    return k
+
+
 def sha(text: str) -> str:
     return hashlib.sha256(text.encode()).hexdigest()
 
@@ -124,9 +130,31 @@ def strip_attr_tokens(it: Item) -> int:
 
 
 def emit_verbatim(out: Out, it: Item, file: str, keep_attrs: bool = False):
-    """emit an item unchanged except that outer attributes (derive, allow, yaserde, ...) are dropped"""
+    """emit an item unchanged except that attributes (derive, allow, yaserde, error, from, default, ...)
+    are dropped: outer ones on the item and, for struct/enum/union, those on fields and variants
+    (blanked in place so that line numbers still map 1:1)"""
     a = it.first if keep_attrs else it.head_first
-    text = it.src[it.toks[a].start:it.end]
+    toks = it.toks
+    text = it.src[toks[a].start:it.end]
+    if not keep_attrs and it.kind in ('struct', 'enum', 'union') and it.open is not None:
+        base = toks[a].start
+        chars = list(text)
+        k = it.open + 1
+        while k < it.last:
+            t = toks[k]
+            if t.kind == 'punct' and t.text == '#':
+                j = _next_sig(toks, k + 1)
+                if toks[j].text == '[':
+                    cl = match_close(toks, j)
+                    seg = it.src[t.start:toks[cl].end]
+                    out.edits.append(f'dropped attribute {" ".join(seg.split())} inside {it.path()}')
+                    for x in range(t.start - base, toks[cl].end - base):
+                        if chars[x] != '\n':
+                            chars[x] = ' '
+                    k = cl + 1
+                    continue
+            k += 1
+        text = ''.join(chars)
     out.code(text + '\n', file, _line(it, a))
     if not keep_attrs and it.attrs:
         for (x, y) in it.attrs:
@@ -188,7 +216,10 @@ def splice_fn(out: Out, it: Item, file: str, fid: str, *, ret: str = 'res',
               prefix: str = '',
               record: bool = True,
               probe: bool = False,
-              inherits: List[str] = ()):
+              inherits: List[str] = (),
+              opaque: List[dict] = (),
+              foreach: List[dict] = (),
+              sink: str = 'writer'):
     """emit fn item `it` with contract clauses spliced between its signature and its body.
     Executable tokens of the body are emitted unchanged and in order."""
     toks = it.toks
@@ -299,13 +330,89 @@ def splice_fn(out: Out, it: Item, file: str, fid: str, *, ret: str = 'res',
         else:
             ins.setdefault(ti, []).append((d['text'], f"{fid}#{d['label']}" if d.get('label') else None))
 
-    cuts = sorted(set(ins) | set(inline))
+    # ---- opaque sub-expressions: a pure expression Verus cannot process is replaced by a call to a
+    # contract-free external function of the stated type (its value is then arbitrary).  Only allowed
+    # when the dropped tokens do not mention the output sink; every use is recorded in `dropped`.
+    replace: Dict[int, Tuple[int, str]] = {}
+    for d in opaque:
+        pat = d['at']
+        if d.get('flex'):
+            # single spaces in the anchor stand for "any whitespace, possibly none"
+            rx = re.compile(r'\s*'.join(re.escape(x) for x in pat.split(' ')))
+            ms = list(rx.finditer(it.src[body_a:body_b]))
+            occ = [m.start() for m in ms]
+            lens = [m.end() - m.start() for m in ms]
+        else:
+            occ = [m.start() for m in re.finditer(re.escape(pat), it.src[body_a:body_b])]
+            lens = [len(pat)] * len(occ)
+        want = d.get('occurrence')
+        if want is None and len(occ) != 1:
+            raise AnchorLost(f'{fid}: opaque-expression anchor {pat!r} occurs {len(occ)} times in {file}:{it.line_span}')
+        if want is not None and want >= len(occ):
+            raise AnchorLost(f'{fid}: opaque-expression anchor {pat!r} occurrence {want} missing')
+        a = body_a + occ[want or 0]
+        b = a + lens[want or 0]
+        ta = next(k for k in range(it.open, it.last + 1) if toks[k].start >= a)
+        tb = next(k for k in range(it.open, it.last + 1) if toks[k].start >= b)
+        while toks[tb - 1].kind in ('ws', 'comment'):
+            tb -= 1
+        if toks[ta].start != a or toks[tb - 1].end > b:
+            raise AnchorLost(f'{fid}: opaque-expression anchor {pat!r} does not fall on token boundaries')
+        if any(toks[k].kind == 'ident' and toks[k].text == sink for k in range(ta, tb)):
+            raise AnchorLost(f'{fid}: opaque-expression anchor {pat!r} mentions the sink `{sink}`; it cannot be dropped')
+        replace[ta] = (tb, d['call'])
+        out.dropped.append(f"{fid}: expression `{' '.join(pat.split())}` ({file}:{it.line_of(a)}) replaced by an unconstrained value of type "
+                           f"{d['type']} (Verus cannot process it; it does not mention the sink)")
+
+    # ---- `ITER.for_each(|p| { BODY })` is presented to Verus as `for p in <opaque finite Vec> { BODY }`
+    # (Verus has no closures capturing `&mut`; the desugaring is the definition of Iterator::for_each).
+    # ITER must not mention the sink; BODY tokens are kept unchanged.
+    for d in foreach:
+        pat = d['at']            # text up to and including `.for_each(`
+        occ = [m.start() for m in re.finditer(re.escape(pat), it.src[body_a:body_b])]
+        want = d.get('occurrence')
+        if want is None and len(occ) != 1:
+            raise AnchorLost(f'{fid}: for_each anchor {pat!r} occurs {len(occ)} times')
+        a = body_a + occ[want or 0]
+        b = a + len(pat)
+        ta = next(k for k in range(it.open, it.last + 1) if toks[k].start >= a)
+        tp = next(k for k in range(it.open, it.last + 1) if toks[k].end >= b)      # the '(' of for_each(
+        if toks[tp].text != '(':
+            raise AnchorLost(f'{fid}: for_each anchor {pat!r} does not end at `(`')
+        cl = match_close(toks, tp)
+        k = _next_sig(toks, tp + 1)
+        if toks[k].text != '|':
+            raise AnchorLost(f'{fid}: for_each argument is not a closure literal')
+        k2 = _next_sig(toks, k + 1)
+        k3 = _next_sig(toks, k2 + 1)
+        if toks[k2].kind != 'ident' or toks[k3].text != '|':
+            raise AnchorLost(f'{fid}: for_each closure parameter is not a plain identifier')
+        kb = _next_sig(toks, k3 + 1)
+        if toks[kb].text != '{' or match_close(toks, kb) != _prev_sig(toks, cl - 1):
+            raise AnchorLost(f'{fid}: for_each closure body is not a single block')
+        if any(toks[x].kind == 'ident' and toks[x].text == sink for x in range(ta, kb)):
+            raise AnchorLost(f'{fid}: for_each iterator expression mentions the sink')
+        replace[ta] = (kb, f"for {toks[k2].text} in {d['call']} ")
+        replace[cl] = (cl + 1, '')
+        out.dropped.append(f"{fid}: `{' '.join(it.src[toks[ta].start:toks[tp].start].split())}(|{toks[k2].text}| {{..}})` ({file}:{it.line_of(a)}) "
+                           f"presented as `for {toks[k2].text} in <unconstrained {d['type']}> {{..}}`; the closure body is kept")
+
+    cuts = sorted(set(ins) | set(inline) | set(replace))
     cur = it.open
     buf = ''
     buf_line = _line(it, cur)
     for c in cuts:
+        if c < cur:
+            raise AnchorLost(f'{fid}: overlapping splice anchors')
         buf += _slice(it, cur, c)
         cur = c
+        if c in replace:
+            tb, call = replace[c]
+            # keep the line structure of the dropped text so that line numbers still map 1:1
+            dropped_text = it.src[toks[c].start:toks[tb - 1].end]
+            buf += call + '\n' * dropped_text.count('\n')
+            cur = tb
+            continue
         if c in ins:
             if buf:
                 out.code(buf, file, buf_line)
